@@ -2,7 +2,8 @@
     that accompany the implications of Properties/C16.v.  Everything here is a closed computation. *)
 From Coq Require Import ZArith NArith List String Bool Lia.
 From TV Require Import Appender.RollingModel Appender.RollingTimeProofs Appender.RollingNameProofs
-  Appender.RollingDirProofs Appender.RollingFsProofs Appender.RollingConcProofs Appender.RollingSeqProofs.
+  Appender.RollingDirProofs Appender.RollingFsProofs Appender.RollingConcProofs Appender.RollingSeqProofs
+  Appender.RollingMainProofs.
 Import ListNotations.
 Local Open Scope Z_scope.
 Local Open Scope string_scope.
@@ -95,3 +96,57 @@ Example leap_day_example :
   map (fun f => (fname f, landed f)) (dir s) =
     [("2000-02-28", [(951782399, [1%N])]); ("2000-02-29", [(951782400, [2%N])]); ("2000-03-01", [(951868800, [3%N])])].
 Proof. vm_compute. auto. Qed.
+
+(** names: constant inside a period, different across a boundary (non-vacuity of the two name theorems) *)
+Example names_example :
+  let c := ex_cfg true None in
+  join_date c 59 = "app.1970-01-01-00-00.log" /\ join_date c 60 = "app.1970-01-01-00-01.log" /\
+  join_date c 119 = join_date c 60 /\ round_date Minutely 119 = round_date Minutely 60 /\
+  round_date Minutely 59 <> round_date Minutely 60.
+Proof. vm_compute. repeat split; auto; discriminate. Qed.
+
+(** the headline of the exclusive interface on a concrete history: the file of minute 1 holds exactly the two
+    writes of minute 1, in order (non-vacuity of C16_lands_in_period) *)
+Example contents_example :
+  let c := ex_cfg true None in
+  let ws := [(30, [1%N]); (70, [2%N]); (75, [3%N]); (130, [4%N])] in
+  let s := run_x c (init c [] 0%N 30) ws in
+  Sorted.StronglySorted Z.le (30 :: map fst ws) /\
+  stored_in s "app.1970-01-01-00-01.log" = [(70, [2%N]); (75, [3%N])] /\
+  belongs c 30 "app.1970-01-01-00-01.log" ws = [(70, [2%N]); (75, [3%N])].
+Proof.
+  cbv zeta. split; [|vm_compute; auto].
+  repeat (constructor; try (simpl; lia)).
+Qed.
+
+(** backward steps: flags, and the write behind the clock stays in the current file (non-vacuity of
+    C16_lands_in_period_any_clock) *)
+Example any_clock_example :
+  let c := ex_cfg true None in
+  let ws := [(70, [2%N]); (10, [3%N]); (70, [4%N])] in
+  let s := run_x c (init c [] 0%N 30) ws in
+  annotate 30 ws = [(70, [2%N], true); (10, [3%N], false); (70, [4%N], true)] /\
+  stored_in s "app.1970-01-01-00-01.log" = ws /\ stored_in s "app.1970-01-01-00-00.log" = [].
+Proof. vm_compute. auto. Qed.
+
+(** F16's schedule, per thread: what each thread started is what it landed (non-vacuity of C16_never_lost) *)
+Example every_call_lands_once_example :
+  let c := ex_cfg true None in
+  let s := run c (init c [] 0%N 30) f16_evs in
+  accepted c (init c [] 0%N 30) f16_evs 0%nat = [(70, [97%N])] /\ done_by s 0%nat = [(70, [97%N])] /\ inflight s 0%nat = [] /\
+  accepted c (init c [] 0%N 30) f16_evs 2%nat = [(140, [99%N])] /\ done_by s 2%nat = [(140, [99%N])].
+Proof. vm_compute. auto. Qed.
+
+(** a thread about to attempt the compare_exchange on a boundary another thread has already won *)
+Example cas_elects_example :
+  let c := ex_cfg true None in
+  let s := run c (init c [] 0%N 30) [Start 0 70 [97%N]; Start 1 75 [98%N]; Step 0; Step 1; Step 0] in
+  (exists t b g, pcs s 1%nat = Some (PCas t b 60 g)) /\ rots (step c s (Step 1)) = [(0%nat, 60, 70)].
+Proof. vm_compute. split; eauto. Qed.
+
+(** a thread whose clock is behind a reading already acted upon (non-vacuity of the backwards step clause) *)
+Example backwards_step_example :
+  let c := ex_cfg true None in
+  let s := run c (init c [] 0%N 30) [Start 0 70 [97%N]; Step 0; Step 0; Step 0; Step 0; Step 0; Start 1 65 [98%N]] in
+  (exists b g, pcs s 1%nat = Some (PLoad 65 b g)) /\ In 70 (decided s) /\ rots (step c s (Step 1)) = rots s.
+Proof. vm_compute. split; eauto. Qed.
